@@ -207,6 +207,12 @@ def run(p, report, tier):
                 c05.check_entity(p, report, ci, f, it, r_param="R6.5", r_arr=None, r_est=None)
                 n65 += 1
     report.analysed["stream_entities_R6.5"] = n65
+    # ---- R6.6 every fit starts from the seed again
+    report.rule("R6.6", "every fit re-derives random_state_ from the constructor parameter before reading it (a test "
+                "hasattr(self, 'random_state_') being true does not count): a refitted model does not continue from the "
+                "numbers an earlier predict consumed (shared with C13 R13.2)", floor=10)
+    from . import c13_fit
+    c13_fit.check_fit_recomputes(p, report, c13_fit.fit_entities(p), "R6.6", only_attrs=("random_state_",))
     report.analysed["draw_events"] = n_draw
     report.analysed["diagnostics"] = sorted(diag)
     report.analysed["call_resolution"] = callstats
